@@ -892,6 +892,13 @@ Definition input_in (D : list vote) (P : list block) (i : input) : Prop :=
   | _ => True
   end.
 
+Lemma maj23_claim_lk D P SPC s r ty peer b :
+  Full D P SPC s -> LK D P SPC s (set_votes (hv_set_peer_maj23 (cs_votes s) r ty peer b) s) [].
+Proof.
+  intro F. destruct (hv_set_peer_maj23_inv D (e_vals E) (cs_votes s) r ty peer b (proj1 (proj1 (proj1 F)))) as [A B].
+  apply lk_nil. apply full_set_votes; [exact F | exact A | rewrite B; exact (proj2 (proj1 (proj1 F)))].
+Qed.
+
 Lemma handle_lk D P SPC i s s' o :
   Full D P SPC s -> input_in D P i -> handle E s i = (s', o) -> LK D P SPC s s' o.
 Proof.
@@ -902,6 +909,7 @@ Proof.
   - eapply add_part_lk; try eassumption. intros b ->. exact Hi.
   - eapply add_vote_lk; eassumption.
   - eapply handle_timeout_lk; eassumption.
+  - destruct (height =? cs_height s); injection Eq as <- <-; [apply maj23_claim_lk; exact F | apply lk_nil; exact F].
 Qed.
 
 Lemma run_lk D P : forall ins SPC s s' os,
@@ -928,7 +936,7 @@ Qed.
 
 Lemma inputs_in_own ins : Forall (input_in (votes_of ins) (blocks_of ins)) ins.
 Proof.
-  apply Forall_forall. intros i Hi. destruct i as [p|h ph idx [b|]|v peer|ti]; cbn; auto.
+  apply Forall_forall. intros i Hi. destruct i as [p|h ph idx [b|]|v peer|ti|h r ty peer b]; cbn; auto.
   - unfold blocks_of. apply in_flat_map. exists (IPart h ph idx (Some b)). split; [exact Hi | left; reflexivity].
   - unfold votes_of. apply in_flat_map. exists (IVote v peer). split; [exact Hi | left; reflexivity].
 Qed.
